@@ -1,5 +1,6 @@
 """The scripted host application: parser slots with variables, custom functions and
 listeners whose behaviour is a JSON script (so it goes into replay files verbatim)."""
+import os
 import threading
 import zlib
 from collections import Counter
@@ -446,6 +447,8 @@ class World(object):
 
 
 def _in_handler(depth, formula):
+    if os.environ.get('HXSIM_NO_HANDLER'):
+        return False
     try:
         data = ('%d|%s' % (depth, formula)).encode('utf-8', 'surrogatepass')
     except Exception:
